@@ -79,6 +79,49 @@ pub fn broken_variants(ctx: &CaseCtx, rng: &mut Rng) -> Vec<String> {
         }
         out.push(q.render());
     }
+    // "pure" variants: several errors of ONE kind only (later error stages, e.g. the unused-tags
+    // check, are only reached when nothing else is wrong), spread over the props of ALL vertices
+    fn for_each_prop(s: &mut crate::qast::QScope, f: &mut dyn FnMut(&mut crate::qast::QProp)) {
+        for sel in s.sels.iter_mut() {
+            match sel {
+                Sel::Prop(p) => f(p),
+                Sel::Edge(e) => for_each_prop(&mut e.child, f),
+            }
+        }
+    }
+    const NAMES: [&str; 8] = ["mike", "alpha", "zulu", "bravo", "yankee", "kilo", "echo", "xray"];
+    for kind in 0..4 {
+        let mut q = ctx.g.query.clone();
+        let mut n = 0usize;
+        for_each_prop(&mut q.root, &mut |p| {
+            if n >= 6 {
+                return;
+            }
+            match kind {
+                0 => {
+                    // several unused tags
+                    p.tags.push(Some(format!("{}{n}", NAMES[n % 8])));
+                    if n == 0 {
+                        p.tags.push(Some("unused_extra_q".into()));
+                        p.tags.push(Some("unused_extra_a".into()));
+                    }
+                }
+                1 => {
+                    // several duplicated output names
+                    p.outputs.push(Some(format!("dup_{}", NAMES[n % 3])));
+                    p.outputs.push(Some(format!("dup_{}", NAMES[(n + 1) % 3])));
+                }
+                2 => p.filters.push(QFilter { op: Op::Eq, rhs: Some(Rhs::Tag(format!("{}_undefined{n}", NAMES[n % 8]))) }),
+                _ => {
+                    // ill-formed / ill-typed filters on several vertices
+                    p.filters.push(QFilter { op: Op::IsNull, rhs: Some(Rhs::Var(format!("{}{n}", NAMES[n % 8]))) });
+                    p.filters.push(QFilter { op: Op::HasPrefix, rhs: None });
+                }
+            }
+            n += 1;
+        });
+        out.push(q.render());
+    }
     out
 }
 
@@ -92,8 +135,13 @@ pub fn handle(report: &mut Report, ctx: &CaseCtx, digests: &mut Vec<String>) {
     for (text, exec) in texts {
         let first = observe(&sdl, &text, if exec { Some(ctx) } else { None });
         report.count("observations");
-        if first.iter().any(|p| p.starts_with("frontend-error")) {
+        if let Some(e) = first.iter().find(|p| p.starts_with("frontend-error:")) {
             report.count("frontend_error_observations");
+            let kind: String = e["frontend-error:".len()..].trim_start_matches("Some(").chars().take_while(|c| c.is_alphanumeric()).collect();
+            report.set_insert("frontend_error_kinds_observed", &kind);
+            if kind == "MultipleErrors" || e.matches("\", \"").count() >= 1 {
+                report.count("frontend_errors_with_several_items");
+            }
         }
         for rep in 0..2 {
             let again = observe(&sdl, &text, if exec { Some(ctx) } else { None });
